@@ -72,11 +72,6 @@ Qed.
 Definition flagsf (f : N) : bool :=
   existsb (N.eqb f) [f_C; f_Z; f_I; f_D; f_X; f_M; f_V; f_N; f_RA; f_RAh; f_RAl; f_RX; f_RXl; f_RY; f_RYl].
 
-Ltac lits ::=
-  change (0 =? 1) with false; change (1 =? 1) with true; change (w_eqb 0 1) with false; change (w_eqb 1 1) with true;
-  change (w_eqb 0 0) with true; change (w_eqb 1 0) with false;
-  cbv iota.
-
 Lemma SetFlags_native : forall p s, wf s -> get f_E s = 0 -> 0 <= p < 256 ->
   exists s', SetFlags p s = Ok tt s' /\ wf s' /\ abs s' = with_P p (abs s) /\ mem s' = mem s /\
              (forall f, flagsf f = false -> get f s' = get f s).
